@@ -61,6 +61,11 @@ func concScenarios() []concScen {
 		out = append(out, concScen{"read‖update(promoted)/" + ex, CacheCfg{MaxSize: 3, Executor: ex}, promoted, [][]string{{"get 1"}, {"set 1"}}, "native"})
 		out = append(out, concScen{"read‖invalidate(probation)/" + ex, CacheCfg{MaxSize: 4, Executor: ex}, three, [][]string{{"get 1"}, {"inv 1"}}, "native"})
 	}
+	// the clock crosses an entry's deadline while a write to that key is between its clock sample and its bucket lock
+	for _, w := range []string{"sia 1", "set 1", "cw 1", "inv 1"} {
+		e := CacheCfg{Expiry: "writing", TTL: 100, Executor: "caller", ClockStart: 1 << 40}
+		out = append(out, concScen{"clock‖" + w + "(expiring)/caller", e, []string{"set 1", "set 2"}, [][]string{{"adv 100"}, {w}}, "native"})
+	}
 	// S6 load install || eviction
 	out = append(out, concScen{"load‖insert-evict/caller", CacheCfg{MaxSize: 2, Executor: "caller"}, two, [][]string{{"load 3"}, {"set 4"}}, "native"})
 	return out
